@@ -149,6 +149,76 @@ func varInScopeSetFromBelow(par, rounds int, rng *hx.Rand) (int, string) {
 	return passes, ""
 }
 
+// writes from update handlers: later than the mid-pass writes of the same pass, so they win
+func setFromUpdateHandler(par, rounds int, rng *hx.Rand) (int, string) {
+	passes := 0
+	for r := 0; r < rounds; r++ {
+		g := newGraph(par)
+		v := incr.Var(g, 0)
+		u := incr.Var(g, 0)
+		w := incr.Var(g, 1)
+		mid, late, upd := 0, 0, 0
+		midOn, lateOn, updOn := false, false, false
+		m := incr.Map(g, w, func(x int) int {
+			if midOn {
+				v.Set(mid) // deferred
+			}
+			return x
+		})
+		m.Node().OnUpdate(func(context.Context) {
+			if lateOn {
+				v.Set(late)
+			}
+			if updOn {
+				u.Update(func(x int) int { return x + upd })
+			}
+		})
+		mv := incr.Map2(g, v, u, func(x, y int) int { return x*1000 + y })
+		om := incr.MustObserve(g, m)
+		ov := incr.MustObserve(g, mv)
+		if err := pass(g, par); err != nil {
+			return passes, err.Error()
+		}
+		passes++
+		vv, uv := 0, 0
+		for i := 0; i < 6; i++ {
+			midOn, lateOn, updOn = rng.Chance(1, 2), rng.Chance(1, 2), rng.Chance(1, 2)
+			mid, late, upd = 1+rng.Intn(400), 401+rng.Intn(400), 1+rng.Intn(9)
+			wv := rng.Intn(1000)
+			w.Set(wv + 1000*i + 1) // always a change: m recomputes, its handler runs
+			before := vv*1000 + uv
+			if err := pass(g, par); err != nil {
+				return passes, err.Error()
+			}
+			passes++
+			if ov.Value() != before {
+				return passes, fmt.Sprintf("round %d step %d: writes made during the pass altered what it computed (%d, inputs gave %d)", r, i, ov.Value(), before)
+			}
+			if midOn {
+				vv = mid
+			}
+			if lateOn {
+				vv = late
+			}
+			if updOn {
+				uv += upd
+			}
+			if v.Value() != vv || u.Value() != uv {
+				return passes, fmt.Sprintf("round %d step %d: after the pass the vars hold (%d,%d), the last writes were (%d,%d) [mid-pass Set=%v handler Set=%v handler Update=%v]", r, i, v.Value(), u.Value(), vv, uv, midOn, lateOn, updOn)
+			}
+			if err := pass(g, par); err != nil {
+				return passes, err.Error()
+			}
+			passes++
+			if ov.Value() != vv*1000+uv {
+				return passes, fmt.Sprintf("round %d step %d: the following pass computed %d, the last writes give %d", r, i, ov.Value(), vv*1000+uv)
+			}
+		}
+		_ = om
+	}
+	return passes, ""
+}
+
 // one height block: some nodes fail (error or panic) and re-queue themselves while their
 // siblings succeed and queue children
 func failingSiblings(par, rounds int, rng *hx.Rand) (int, string) {
@@ -318,6 +388,7 @@ func main() {
 	scenarios := []scenario{
 		{"var-in-bind-scope-set-by-sibling", "a var created inside a bind scope is written (deferred Set) by a node function of its own height block", varInScope},
 		{"var-in-bind-scope-set-from-a-lower-block", "a queued var created inside a bind scope is written (deferred Set) by a node function of a lower height block", varInScopeSetFromBelow},
+		{"writes-from-update-handlers", "a var written mid-pass by a node function and afterwards by an update handler of the same pass; Updates from handlers", setFromUpdateHandler},
 		{"failing-siblings-queue-children", "nodes of one height block fail or panic and re-queue themselves while siblings queue children", failingSiblings},
 		{"fold-many-inputs", "UnorderedArrayFold with repeated inputs, most inputs changing in one pass", foldManyInputs},
 		{"binds-sharing-outer-nodes", "six binds of one height switch between shared outer nodes of different heights in one pass", bindsSharingOuter},
